@@ -31,6 +31,27 @@ BUILD = os.path.join(ROOT, "build")
 REPO = os.environ.get("VERIF_REPO", "/repo")
 MODEL_EXE = os.path.join(LEAN, ".lake", "build", "bin", "rsslmodel")
 HARNESS_EXE = os.path.join(BUILD, "target", "debug", "harness")
+
+
+def harness_dir():
+    """The harness crate to build. With VERIF_REPO pointing at a scratch copy of the repository (used when
+    trying mutations without touching /repo) a shadow crate with rewritten path dependencies is used."""
+    global HARNESS_EXE
+    if os.path.realpath(REPO) == "/repo":
+        return HARNESS
+    tag = hashlib.sha256(REPO.encode()).hexdigest()[:8]
+    alt = os.path.join(BUILD, "harness-" + tag)
+    os.makedirs(os.path.join(alt, ".cargo"), exist_ok=True)
+    with open(os.path.join(HARNESS, "Cargo.toml")) as f:
+        toml = f.read().replace('"/repo', '"' + REPO.rstrip("/"))
+    toml = toml.replace('path = "src/main.rs"', 'path = "%s"' % os.path.join(HARNESS, "src", "main.rs"))
+    with open(os.path.join(alt, "Cargo.toml"), "w") as f:
+        f.write(toml)
+    with open(os.path.join(alt, ".cargo", "config.toml"), "w") as f:
+        f.write('[net]\noffline = true\n[build]\ntarget-dir = "%s"\nrustflags = ["--cfg", "trark_rssl_verif"]\n'
+                % os.path.join(BUILD, "target-" + tag))
+    HARNESS_EXE = os.path.join(BUILD, "target-" + tag, "debug", "harness")
+    return alt
 ALLOWED_AXIOMS = {"propext", "Classical.choice", "Quot.sound"}
 FORBIDDEN = re.compile(r"\bsorry\b|\badmit\b|^\s*axiom\s|native_decide|bv_decide|implemented_by|\bunsafe\s|maxHeartbeats\s+0")
 
@@ -227,8 +248,7 @@ class Ctx:
     # ---------------------------------------------------------------- correspondence side
     def harness_build(self):
         with Lock("cargo"):
-            lock_src = os.path.join(REPO, "Cargo.lock")
-            rc, out = sh(["cargo", "build", "--offline"], cwd=HARNESS, timeout=3000)
+            rc, out = sh(["cargo", "build", "--offline"], cwd=harness_dir(), timeout=3000)
         self.harness_ok = rc == 0
         if rc != 0:
             errs = [l for l in out.splitlines() if l.startswith("error")]
